@@ -74,6 +74,14 @@ def shard_fn(shard, nshards, seed, tier, exe, npairs):
                 add(D, nest(rng, 10 * D + 7, shape, "0", "only"), 0, "peak-far", g)
                 if D in (1, 2, 32, 1000) or rng.random() < 0.1:
                     add(D, nest(rng, rng.choice(big), shape, "0", "only"), rng.choice([0, 0, 4096]), "peak-far", g)
+    # very large limits: nothing in the tokener may assume that a configured depth is small
+    if shard < 6:
+        D = [10001, 10001, 10001, 10050, 10050, 12000][shard]   # (json_object_put and the driver's own dump recurse once per level: limits far beyond this need a bigger stack than the process has)
+        for shape in ("o", "a", "x"):
+            for m in (D - 1, D, 9999, 10000, 10001):
+                if m <= D:
+                    add(D, nest(rng, m, shape, "0", "only"), rng.choice([0, 0, 4096]), "boundary")
+        sh.count("limits_of_10001_and_more")
     gens = {}
     for _ in range(npairs // nshards):
         D = rng.choice(list(range(1, 41)) + [64])
